@@ -36,7 +36,7 @@ Definition enc_payload (p : payload) : bytes :=
   | PAddrs a => enc_addrs a
   | PTlv k v => enc_tlv k v
   | PPair k v => enc_tlv k v
-  | PSection b => b
+  | PSection b _ => b
   | PType t => [spec_type_code t]
   end.
 
